@@ -184,6 +184,19 @@ class Ref:
                 elif name.startswith("hcancel:"):
                     self._cancel(name[8:], i, it, "env handle.cancel")
         self.possible = getattr(self, "possible", {})
+        # a child started with start() that ends with an error after its starter was cancelled:
+        # the error goes to the group, which is therefore cancelled like for any failing child
+        te_of = {e[3]: (i, e[4]) for i, e in enumerate(log) if e[2] == "te"}
+        for (caller, opid), (child, bi) in start_calls.items():
+            end = next((e for e in log if e[2] == "e" and e[3] == caller and e[4] == opid), None)
+            if end is None or end[5][0] != "cancel" or child in started_ok:
+                continue
+            if child in te_of and te_of[child][1][0] not in ("ok", "cancel"):
+                g = spawned_into.get(child, (None, None))[0]
+                if g is not None:
+                    ti = te_of[child][0]
+                    self._cancel(g, ti, log[ti][0] + 2, f"start()ed child {child} failed while "
+                                                        f"its starter was cancelled")
         # deadline-triggered cancels: the first instant, while the scope is active, at which the
         # clock has reached the deadline in force
         for name, sc in list(self.scopes.items()):
